@@ -187,6 +187,16 @@ ROUND5 = {
 }
 for _k, _v in ROUND5.items():
     CLAIMED[_k]["text"] += _v
+ROUND6 = {
+ "C01": " After round 5: pass 1B writes a cloned EA block through the checksumming writer and gives up the old block's claim on every path (C01.n; two genuine defects repaired).",
+ "C06": " After round 5: a recursion depth read from the disk is range-checked before the first call (C06.g); a loop advanced by the result of read() is left when read() returns 0 (C06.h); two genuine hangs repaired.",
+ "C09": " After round 5: a write into the inline area copies the caller's count to buf + pos and stores max(old length, end of the write) (C09.v; genuine defect repaired).",
+ "C15": " After round 5: the xattr commands of debugfs report every failing library call (C15.h; genuine defect repaired).",
+ "C18": " After round 5: every kind of multiply-linked object goes through the hard-link lookup (C18.c); on every successful copy the inline state is compared with the length (C18.h); two genuine defects repaired.",
+ "C19": " After round 5: unlinked inodes are passed over only off the orphan list (C19.b); qcow2-to-raw conversion starts from an empty file (C19.g); a continued partial write asks for the remaining count (C19.i); three genuine defects repaired.",
+}
+for _k, _v in ROUND6.items():
+    CLAIMED[_k]["text"] += _v
 for _k in CLAIMED:
     CLAIMED[_k]["text"] += " Names of locals and parameters are mapped onto the pinned tree's before any rule runs (renaming all of them is silent)."
 
